@@ -818,10 +818,14 @@ func (s *ShapeIndex) maybeApplyUpdates() {
 	// is fresh and when updating the status to be fresh. This guarantees
 	// that any thread that sees a status of fresh will also see the
 	// corresponding index updates.
+	verifPoint("index.beforeStatusCheck")
 	if atomic.LoadInt32(&s.status) != fresh {
+		verifPoint("index.beforeLock")
 		s.mu.Lock()
 		s.applyUpdatesInternal()
+		verifPoint("index.beforeStatusStore")
 		atomic.StoreInt32(&s.status, fresh)
+		verifPoint("index.beforeUnlock")
 		s.mu.Unlock()
 	}
 }
@@ -847,6 +851,7 @@ func (s *ShapeIndex) applyUpdatesInternal() {
 	}
 
 	for face := 0; face < 6; face++ {
+		verifPoint("index.midBuild")
 		s.updateFaceEdges(face, allEdges[face], t)
 	}
 
